@@ -9,6 +9,9 @@ CLAIMED = {
  "C15": dict(cat="exploration", ref="4.2", technique="deterministic simulation: real UndoHistory under an interposed, plan-driven clock; seeded histories of record/seek/clock ops checked op by op against a reference model",
    text="Seeded histories (0..60 ops) of record/seek/clock-advance against the real undo-history.cpp with time() interposed by the simulated clock, so the 2-second merge window is crossed at every sub-second alignment and the 20-event cap in every cursor position; after each op position, size, every retained entry and every emitted message are compared with a reference model written from the property text. Sampling, not proof.",
    note="Trusted: the time() interposition, the reference model (models/undo_model.h). Between 2 s and 3 s of true elapsed time either merge outcome is accepted because the library's clock has one-second granularity. Backwards clock steps: only memory safety and pos<=size<=20."),
+ "C19": dict(cat="exploration", ref="4.4", technique="deterministic simulation: three scripted event sources (UI, host, MIDI incl. split NRPN sequences) interleaved by the seeded plan against the real AutomationMgr; model-checked op by op",
+   text="Seeded interleavings (1..40 ops) of UI, plugin-host and MIDI-device events against the real automations.cpp bound to a real macro-generated port tree; the manager lives in simulator-prefilled memory. After every op the learn position of every slot, the queue length and the controller bindings are compared with a FIFO model; every backend message is checked for address, type, range, exact linear mapping at default gain/offset (1e-5 relative for log scale), monotonicity on paired probes, and is dispatched into the real port. Sampling, not proof.",
+   note="Trusted: the model of the learn queue and NRPN assembly, hand-copied declared ranges. Where the statement is silent (learn request on a bound or waiting slot) the model accepts 'ignored' or 'appended'. Bindable parameters: int, float (linear/log), toggle, bounded option."),
 }
 PENDING = {}
 NA = {
